@@ -27,6 +27,39 @@ SOURCES = {
 }
 
 
+def evaluator_lock_rule(ctx, program, rid):
+    """Lock discipline on the shared expression evaluator of the new subsystem (ExpressionDecorator._ast_expression)."""
+    uid = "decorators/base.py::ExpressionDecorator.check_expression_vars"
+    fn = program.func(uid)
+    cls = program.cls("decorators/base.py::ExpressionDecorator")
+    evals = [n for n in body_walk(fn) if isinstance(n, ast.Await) and isinstance(n.value, ast.Call) and isinstance(n.value.func, ast.Attribute) and n.value.func.attr == "eval"]
+    if not evals:
+        raise AnalysisError("check_expression_vars: the evaluation call was not found")
+    # attributes of the class that hold an asyncio.Lock (class level or assigned in a method)
+    locks = set()
+    for n in ast.walk(cls):
+        val = getattr(n, "value", None)
+        if isinstance(n, (ast.Assign, ast.AnnAssign)) and isinstance(val, ast.Call) and (call_name(val) or "").endswith("Lock"):
+            for t in (n.targets if isinstance(n, ast.Assign) else [n.target]):
+                locks.add(norm(t).replace("self.", ""))
+    for ev in evals:
+        recv = norm(ev.value.func.value)
+        fresh = any(isinstance(a, ast.Assign) and norm(a.targets[0]) == recv and isinstance(a.value, ast.Call) and call_name(a.value) == "AstEval" for a in body_walk(fn))
+        held = None
+        p = getattr(ev, "_parent", None)
+        while p is not None and p is not fn:
+            if isinstance(p, ast.AsyncWith):
+                for item in p.items:
+                    nm = norm(item.context_expr).replace("self.", "")
+                    if nm in locks:
+                        held = nm
+            p = getattr(p, "_parent", None)
+        ctx.check(fresh or held is not None, rid, uid, f"evaluation through {recv} is serialised or uses its own evaluator",
+                  msg=f"check_expression_vars awaits `{short(ev.value)}` on the decorator's single evaluator without holding a lock (locks of the class: {sorted(locks) or 'none'}): "
+                  f"occurrences are handled concurrently, and a second evaluation replaces the variables of one that is suspended - a matching message is lost or runs start out of order",
+                  key="shared evaluator unlocked", node=ev, rel="decorators/base.py")
+
+
 def fanout_copy_rule(ctx, program, rid):
     """Each subscriber queue of a source receives its own copy of the occurrence's arguments (waits and triggers mutate / return what they receive)."""
     for uid in ("state.py::State.update", "event.py::Event.update", "mqtt.py::Mqtt.update", "webhook.py::Webhook.update"):
@@ -71,6 +104,12 @@ def filter_scope_rule(ctx, program, rid):
         pol = FlowPolicy(program, may_raise_all=False, cancel=False, inline=inl,
                          summaries={"self.aeval": aeval, "self.has_expression": lambda i, n, a, k, c, o: [(c, Const(True))]})
         heap = {"expr.local_sym_table": DictV([(Const("print"), Sym(("fn", "print")))]), "expr.ast": ObjV("tree", "Expression"), "self._ast_expression": ObjV("expr", "AstEval")}
+        if "ExpressionDecorator" in uid:
+            # class-level defaults (constants) are the instance's initial attribute values
+            for st in program.cls("decorators/base.py::ExpressionDecorator").body:
+                if isinstance(st, ast.AnnAssign) and isinstance(st.target, ast.Name) and isinstance(st.value, ast.Constant):
+                    heap.setdefault(f"self.{st.target.id}", Const(st.value.value))
+            pol.summaries["asyncio.Lock"] = lambda i, n, a, k, c, o: [(c, ObjV("lock", "Lock"))]
         bad = None
         for m in (m1, m2):
             out = run_flow(program, uid, pol, args=args(m), heap=heap)
@@ -255,6 +294,10 @@ def run(ctx):
     ctx.rule("R08.8", "the variables a filter expression sees are those of the current message only: a key carried by an earlier message and absent from this one is "
              "not visible (both subsystems' evaluation helpers)", floor=2)
     filter_scope_rule(ctx, program, "R08.8")
+    ctx.rule("R08.9", "a filter/guard expression is evaluated by one evaluator object whose variables are replaced per evaluation; occurrences are handled in tasks of their own, "
+             "so the evaluation is serialised (held under the decorator's lock from the variable update to the result) - otherwise a filter that suspends is judged with the next "
+             "message's variables (lost message, reordered runs)", floor=1)
+    evaluator_lock_rule(ctx, program, "R08.9")
     ctx.rule("R08.7", "no event listener of a function outlives it: a manager stopped while its start loop is suspended registers no further listener (an old and a new "
              "definition would both run for each event)", floor=2)
     from .c15 import start_typestate
